@@ -709,3 +709,11 @@ M('c10f-reclaim-depends-on-response-cursor', 'C10', 'break', CP,
   '    for (size_t i = 0; i < nb; i++) {\n        // 0 and not i because at next iteration, we have removed the first', '    for (size_t i = 0; (i < nb) && (connp->out_next_tx_index > 0); i++) {\n        // 0 and not i because at next iteration, we have removed the first', 'C10.f')
 M('c10f-reclaim-while-loop-keep', 'C10', 'keep', CP,
   '    for (size_t i = 0; i < nb; i++) {\n        // 0 and not i because at next iteration, we have removed the first', '    size_t i = 0;\n    for (; i < nb; i++) {\n        // 0 and not i because at next iteration, we have removed the first')
+
+# ---------------- C01.l
+M('c01l-gap-dispatched-to-line-state', 'C01', 'break', RQ,
+  '            if (connp->in_state == htp_connp_REQ_BODY_IDENTITY ||\n                connp->in_state == htp_connp_REQ_IGNORE_DATA_AFTER_HTTP_0_9) {',
+  '            if (connp->in_state == htp_connp_REQ_BODY_IDENTITY ||\n                connp->in_state == htp_connp_REQ_BODY_CHUNKED_DATA_END ||\n                connp->in_state == htp_connp_REQ_IGNORE_DATA_AFTER_HTTP_0_9) {', 'C01.l')
+M('c01l-identity-state-peeks', 'C01', 'break', RQ,
+  '    // If the input buffer is empty, ask for more data.\n    if (bytes_to_consume == 0) return HTP_DATA;\n\n    // Consume data.\n    int rc = htp_tx_req_process_body_data_ex(',
+  '    // If the input buffer is empty, ask for more data.\n    if (bytes_to_consume == 0) return HTP_DATA;\n    if (connp->in_current_data[connp->in_current_read_offset] == 0) connp->in_tx->flags |= HTP_REQUEST_INVALID;\n\n    // Consume data.\n    int rc = htp_tx_req_process_body_data_ex(', 'C01.l')
